@@ -155,6 +155,7 @@ class ProgramDB:
         self.canonicalised_calls = 0
         for name, path, src, tree in parsed:
             self.canonicalised_calls += _canonicalise_calls(tree, self.sigs)
+            _canonicalise_local_annotations(tree)
             self.modules[name] = Module(name, path, src, tree)
         self.digest = h.hexdigest()[:16]
         self.nlines = nlines
@@ -333,6 +334,34 @@ def _sig_of(call: ast.Call, sigs) -> Optional[List[str]]:
             return None
         return e[0]
     return None
+
+
+def _canonicalise_local_annotations(tree: ast.AST) -> int:
+    """in place: `x: T = e` on a plain local name inside a function body becomes `x = e` (annotations of locals are never evaluated);
+    class- and module-level annotated assignments (dataclass fields, constants) are left as they are"""
+    n = 0
+
+    def fix(body):
+        nonlocal n
+        for i, st in enumerate(body):
+            if isinstance(st, ast.AnnAssign) and st.value is not None and isinstance(st.target, ast.Name):
+                body[i] = ast.copy_location(ast.Assign(targets=[st.target], value=st.value), st)
+                n += 1
+            elif isinstance(st, ast.ClassDef):
+                continue
+            for fld in ("body", "orelse", "finalbody"):
+                sub = getattr(body[i], fld, None)
+                if isinstance(sub, list) and not isinstance(body[i], (ast.FunctionDef, ast.AsyncFunctionDef, ast.ClassDef)):
+                    fix(sub)
+            for h_ in getattr(body[i], "handlers", []) or []:
+                fix(h_.body)
+            if isinstance(body[i], ast.Match) if hasattr(ast, "Match") else False:
+                for c_ in body[i].cases:
+                    fix(c_.body)
+    for f in ast.walk(tree):
+        if isinstance(f, (ast.FunctionDef, ast.AsyncFunctionDef)):
+            fix(f.body)
+    return n
 
 
 def _canonicalise_calls(tree: ast.AST, sigs) -> int:
